@@ -38,11 +38,23 @@ type Step struct {
 	Op    string   `json:"op,omitempty"` // Put | Get | Fm | Comp
 	K     string   `json:"k,omitempty"`
 	Ks    []string `json:"ks,omitempty"`
-	Inst  string   `json:"inst,omitempty"`
+	Inst  string   `json:"inst,omitempty"` // instance name, components separated by "/"
 	Bad   string   `json:"bad,omitempty"` // "" | content | short | error
 	Child int      `json:"child,omitempty"`
 	Hold  bool     `json:"hold,omitempty"`
 	L     string   `json:"l,omitempty"`
+	N     int      `json:"n,omitempty"` // release the gate n times (default 1)
+	Exp   []Exp    `json:"exp,omitempty"`
+	HasExp bool    `json:"hasExp,omitempty"`
+}
+
+// Exp is a completion the design specification expects in a step.
+type Exp struct {
+	P    string `json:"p"`
+	Op   string `json:"op"`
+	K    string `json:"k"`
+	Res  string `json:"res"`
+	What any    `json:"what"`
 }
 
 type Script struct {
@@ -83,6 +95,13 @@ func (w *world) classify(data []byte) string {
 	return "MIX"
 }
 
+func comps(inst string) []string {
+	if inst == "" {
+		return []string{}
+	}
+	return strings.Split(inst, "/")
+}
+
 func codeOf(err error) string {
 	if err == nil {
 		return "OK"
@@ -107,6 +126,9 @@ func newWorld(cfg Config, keys map[string]KeyDef, coop bool, seed int64, gates [
 	w := &world{sc: sc, log: log, keys: keys, known: map[string]string{}}
 	w.st = New(cfg, log, sc)
 	for k := range keys {
+		if prev, dup := w.known[string(w.content(k))]; dup {
+			panic("ambiguous contents: " + prev + " and " + k)
+		}
 		w.known[string(w.content(k))] = k
 		if keys[k].Size >= 2 {
 			w.known[string(w.content(k+"#0"))] = k + "#0"
@@ -164,6 +186,9 @@ func (w *world) doPut(ctx context.Context, s Step) {
 	d := DigestOf(s.Inst, good)
 	data := good
 	var items []Item
+	if len(good) == 0 && (s.Bad == "content" || s.Bad == "short") {
+		s.Bad = "" // the empty object cannot be truncated or altered
+	}
 	switch s.Bad {
 	case "content":
 		data = append([]byte(nil), good...)
@@ -189,13 +214,13 @@ func (w *world) doPut(ctx context.Context, s Step) {
 	}
 	src := NewGatedReader(w.sc, "src:"+s.P, items)
 	w.srcs = append(w.srcs, src)
-	w.log.Emit(map[string]any{"ev": "PutStart", "p": s.P, "k": s.K, "inst": s.Inst, "valid": s.Bad == "", "size": len(good)})
+	w.log.Emit(map[string]any{"ev": "PutStart", "p": s.P, "k": s.K, "inst": comps(s.Inst), "valid": s.Bad == "", "size": len(good)})
 	err := w.st.Access.Put(ctx, d, buffer.NewCASBufferFromReader(d, src, buffer.UserProvided))
 	msg := ""
 	if err != nil {
 		msg = err.Error()
 	}
-	w.log.Emit(map[string]any{"ev": "PutEnd", "p": s.P, "k": s.K, "inst": s.Inst, "valid": s.Bad == "", "res": codeOf(err), "msg": msg, "srcClosed": int(src.Closed.Load())})
+	w.log.Emit(map[string]any{"ev": "PutEnd", "p": s.P, "k": s.K, "inst": comps(s.Inst), "valid": s.Bad == "", "res": codeOf(err), "msg": msg, "srcClosed": int(src.Closed.Load())})
 }
 
 func (w *world) readResult(b buffer.Buffer) (string, string, string) {
@@ -206,18 +231,22 @@ func (w *world) readResult(b buffer.Buffer) (string, string, string) {
 		}
 		return "Error", status.Code(err).String(), err.Error()
 	}
-	return "Data", w.classify(data), ""
+	what := w.classify(data)
+	if what == "MIX" {
+		return "Data", what, fmt.Sprintf("bytes=%x", data)
+	}
+	return "Data", what, ""
 }
 
 func (w *world) doGet(ctx context.Context, s Step) {
 	d := DigestOf(s.Inst, w.content(s.K))
-	w.log.Emit(map[string]any{"ev": "GetStart", "p": s.P, "k": s.K, "inst": s.Inst})
+	w.log.Emit(map[string]any{"ev": "GetStart", "p": s.P, "k": s.K, "inst": comps(s.Inst)})
 	b := w.st.Access.Get(ctx, d)
 	if s.Hold {
 		w.sc.Gate("consume:" + s.P)
 	}
 	kind, what, msg := w.readResult(b)
-	w.log.Emit(map[string]any{"ev": "GetEnd", "p": s.P, "k": s.K, "inst": s.Inst, "kind": kind, "what": what, "msg": msg})
+	w.log.Emit(map[string]any{"ev": "GetEnd", "p": s.P, "k": s.K, "inst": comps(s.Inst), "kind": kind, "what": what, "msg": msg})
 }
 
 func (w *world) doFm(ctx context.Context, s Step) {
@@ -228,7 +257,7 @@ func (w *world) doFm(ctx context.Context, s Step) {
 		sb.Add(d)
 		byDigest[d] = k
 	}
-	w.log.Emit(map[string]any{"ev": "FmStart", "p": s.P, "ks": s.Ks, "inst": s.Inst})
+	w.log.Emit(map[string]any{"ev": "FmStart", "p": s.P, "ks": s.Ks, "inst": comps(s.Inst)})
 	missing, err := w.st.Access.FindMissing(ctx, sb.Build())
 	names := []string{}
 	for _, d := range missing.Items() {
@@ -239,17 +268,17 @@ func (w *world) doFm(ctx context.Context, s Step) {
 	if err != nil {
 		msg = err.Error()
 	}
-	w.log.Emit(map[string]any{"ev": "FmEnd", "p": s.P, "ks": s.Ks, "inst": s.Inst, "missing": names, "res": codeOf(err), "msg": msg})
+	w.log.Emit(map[string]any{"ev": "FmEnd", "p": s.P, "ks": s.Ks, "inst": comps(s.Inst), "missing": names, "res": codeOf(err), "msg": msg})
 }
 
 func (w *world) doComp(ctx context.Context, s Step) {
 	parent := DigestOf(s.Inst, w.content(s.K))
 	childName := fmt.Sprintf("%s#%d", s.K, s.Child)
 	child := DigestOf(s.Inst, w.content(childName))
-	w.log.Emit(map[string]any{"ev": "CompStart", "p": s.P, "k": s.K, "child": s.Child, "inst": s.Inst})
+	w.log.Emit(map[string]any{"ev": "CompStart", "p": s.P, "k": s.K, "child": s.Child, "inst": comps(s.Inst)})
 	b := w.st.Access.GetFromComposite(ctx, parent, child, NewHalfSlicer(w.sc, "slice:"+s.P, s.Inst))
 	kind, what, msg := w.readResult(b)
-	w.log.Emit(map[string]any{"ev": "CompEnd", "p": s.P, "k": s.K, "child": s.Child, "inst": s.Inst, "kind": kind, "what": what, "want": childName, "msg": msg})
+	w.log.Emit(map[string]any{"ev": "CompEnd", "p": s.P, "k": s.K, "child": s.Child, "inst": comps(s.Inst), "kind": kind, "what": what, "want": childName, "msg": msg})
 }
 
 // corrupt flips one byte of the newest stored copy of key k on the data device.
@@ -275,6 +304,75 @@ type runStats struct {
 	Steps      int
 	Infeasible int
 	Panics     int
+	Drift      int
+	Ends       int
+	FirstDrift map[string]any
+}
+
+// normalize maps the End events logged during one step to the design's vocabulary.
+func normalize(evs []map[string]any) []string {
+	integrity := false
+	for _, e := range evs {
+		if e["ev"] == "Integrity" && e["ok"] == false {
+			integrity = true
+		}
+	}
+	var out []string
+	for _, e := range evs {
+		switch e["ev"] {
+		case "PutEnd":
+			out = append(out, fmt.Sprintf("%v/Put/%v/%v/", e["p"], e["k"], e["res"]))
+		case "GetEnd", "CompEnd":
+			op := "Get"
+			if e["ev"] == "CompEnd" {
+				op = "Comp"
+			}
+			res, what := fmt.Sprint(e["kind"]), fmt.Sprint(e["what"])
+			if res == "Error" {
+				res, what = what, ""
+				if res == "Internal" && integrity {
+					res = "Integrity"
+				}
+			}
+			out = append(out, fmt.Sprintf("%v/%s/%v/%v/%v", e["p"], op, e["k"], res, what))
+		case "FmEnd":
+			res := fmt.Sprint(e["res"])
+			what := ""
+			if res == "OK" {
+				what = strings.Join(e["missing"].([]string), ",")
+			} else if res == "Internal" && integrity {
+				res = "Integrity"
+			}
+			out = append(out, fmt.Sprintf("%v/Fm//%v/%v", e["p"], res, what))
+		}
+	}
+	sort.Strings(out)
+	return out
+}
+
+func normalizeExp(exp []Exp) []string {
+	var out []string
+	for _, e := range exp {
+		what := ""
+		switch w := e.What.(type) {
+		case string:
+			what = w
+		case []any:
+			var xs []string
+			for _, x := range w {
+				xs = append(xs, fmt.Sprint(x))
+			}
+			sort.Strings(xs)
+			what = strings.Join(xs, ",")
+		}
+		k := e.K
+		if e.Op == "Fm" {
+			k = ""
+		}
+		out = append(out, fmt.Sprintf("%s/%s/%s/%s/%s", e.P, e.Op, k, e.Res, what))
+	}
+	sort.Strings(out)
+	return out
 }
 
 func (w *world) finish() {
@@ -295,18 +393,38 @@ func (w *world) finish() {
 func runScript(t *testing.T, sc *Script, tw *hx.Writer) runStats {
 	var rs runStats
 	synctest.Test(t, func(t *testing.T) {
-		tw.Emit(map[string]any{"ev": "Reset", "id": sc.ID, "cfg": sc.Cfg, "keys": keyNames(sc.Keys)})
+		tw.Emit(map[string]any{"ev": "Reset", "id": sc.ID, "cfg": cfgEvent(sc.Cfg, true), "keys": keyNames(sc.Keys)})
 		w := newWorld(sc.Cfg, sc.Keys, true, 1, sc.Gates, tw)
 		installYield(w)
-		for _, s := range sc.Steps {
+		for si, s := range sc.Steps {
 			rs.Steps++
+			mark := len(w.log.Mem)
 			switch s.Do {
 			case "start":
+				w.log.SetCur(s.P)
 				w.start(s)
 				w.sc.Settle()
 			case "rel":
-				if !w.sc.Release(s.L) {
-					rs.Infeasible++
+				if parts := strings.SplitN(s.L, ":", 3); len(parts) >= 2 {
+					w.log.SetCur(parts[1])
+				}
+				n := s.N
+				if n == 0 {
+					n = 1
+				}
+				if n < 0 { // release for as long as the process keeps parking at this gate
+					if !w.sc.Release(s.L) {
+						rs.Infeasible++
+					}
+					for w.sc.Release(s.L) {
+					}
+				} else {
+					for i := 0; i < n; i++ {
+						if !w.sc.Release(s.L) {
+							rs.Infeasible++
+							break
+						}
+					}
 				}
 			case "corrupt":
 				if !w.corrupt(s.K) {
@@ -315,11 +433,28 @@ func runScript(t *testing.T, sc *Script, tw *hx.Writer) runStats {
 			default:
 				t.Fatalf("unknown step %q", s.Do)
 			}
+			if s.HasExp {
+				got := normalize(w.log.Mem[mark:])
+				want := normalizeExp(s.Exp)
+				rs.Ends += len(got)
+				if strings.Join(got, ";") != strings.Join(want, ";") {
+					rs.Drift++
+					if rs.FirstDrift == nil {
+						rs.FirstDrift = map[string]any{"script": sc.ID, "step": si, "want": want, "got": got}
+					}
+					tw.Emit(map[string]any{"ev": "Note", "drift": true, "step": si, "want": want, "got": got})
+				}
+			}
 		}
 		w.finish()
 		installYield(nil)
 	})
 	return rs
+}
+
+func cfgEvent(c Config, coop bool) map[string]any {
+	return map[string]any{"access": c.Access, "alloc": c.Alloc, "index": c.Index, "policy": c.Policy, "factory": c.Factory,
+		"old": c.Old, "cur": c.Cur, "new": c.New, "spare": c.Spare, "sector": c.Sector, "blockSectors": c.BlockSectors, "coop": coop}
 }
 
 func keyNames(keys map[string]KeyDef) []string {
@@ -339,7 +474,8 @@ func TestScripts(t *testing.T) {
 	tw := hx.NewWriter(filepath.Join(out, "traces.ndjson"))
 	defer tw.Close()
 	total := runStats{}
-	n := 0
+	n, driftScripts := 0, 0
+	var drifts []map[string]any
 	hx.ReadLines(os.Getenv("STORE_SCRIPTS"), func(line []byte) {
 		var sc Script
 		if err := json.Unmarshal(line, &sc); err != nil {
@@ -348,11 +484,238 @@ func TestScripts(t *testing.T) {
 		rs := runScript(t, &sc, tw)
 		total.Steps += rs.Steps
 		total.Infeasible += rs.Infeasible
+		total.Ends += rs.Ends
+		if rs.Drift > 0 {
+			driftScripts++
+			if len(drifts) < 5 {
+				drifts = append(drifts, rs.FirstDrift)
+			}
+		}
 		n++
 	})
-	b, _ := json.Marshal(map[string]int{"scripts": n, "steps": total.Steps, "infeasible": total.Infeasible})
+	b, _ := json.Marshal(map[string]any{"scripts": n, "steps": total.Steps, "infeasible": total.Infeasible,
+		"completions_compared": total.Ends, "drift_scripts": driftScripts, "first_drifts": drifts})
 	os.WriteFile(filepath.Join(out, "summary.json"), b, 0o644)
 }
 
 var _ = errors.New
-var _ = rand.New
+
+// ---- seeded random drivers -----------------------------------------------------
+
+func randomConfig(rng *rand.Rand, access string) (Config, map[string]KeyDef, int) {
+	unit := 1 + rng.Intn(3)
+	bs := 2 + rng.Intn(3) // block size in units
+	cfg := Config{Access: access, Policy: []string{"immutable", "mutable"}[rng.Intn(2)], Factory: "cas",
+		Old: rng.Intn(3), Cur: rng.Intn(3), New: 1 + rng.Intn(3), Spare: rng.Intn(3),
+		IndexSlots: 61, MaxGet: 8, MaxPut: 16}
+	if rng.Intn(4) == 0 {
+		cfg.Factory = "raw"
+	}
+	if rng.Intn(3) == 0 {
+		cfg.Alloc, cfg.Sector, cfg.BlockSectors = "mem", 1, bs*unit
+	} else {
+		cfg.Alloc = "dev"
+		secs := []int{}
+		for _, s := range []int{1, 2, 3, 4, 6, 8} {
+			if (bs*unit)%s == 0 {
+				secs = append(secs, s)
+			}
+		}
+		cfg.Sector = secs[rng.Intn(len(secs))]
+		cfg.BlockSectors = bs * unit / cfg.Sector
+	}
+	cfg.Index = []string{"mem", "dev"}[rng.Intn(2)]
+	keys := map[string]KeyDef{}
+	nk := 3 + rng.Intn(3)
+	zero := false
+	for i := 0; i < nk; i++ {
+		sz := rng.Intn(bs+1) * unit // 0 .. block size
+		if i == 0 {
+			sz = 2 * unit // the composite parent
+		}
+		if rng.Intn(5) == 0 && sz > 0 {
+			sz-- // sizes that are not multiples of the unit
+		}
+		if i == 0 && sz < 2 {
+			sz = 2
+		}
+		if sz == 0 {
+			if zero {
+				sz = 1 // at most one empty object: equal contents are the same CAS object
+			}
+			zero = true
+		}
+		keys[fmt.Sprintf("k%d", i)] = KeyDef{Cid: 10 + i, Size: sz}
+	}
+	return cfg, keys, unit
+}
+
+var hierNames = []string{"", "x", "x/y", "xy", "x/yz", "z"}
+
+func randomOp(rng *rand.Rand, p string, keys []string, access string, corrupt bool) Step {
+	k := keys[rng.Intn(len(keys))]
+	inst := ""
+	if access == "hier" {
+		inst = hierNames[rng.Intn(len(hierNames))]
+	}
+	switch r := rng.Intn(10); {
+	case r < 4:
+		bad := ""
+		if rng.Intn(5) == 0 {
+			bad = []string{"content", "short", "error"}[rng.Intn(3)]
+		}
+		return Step{Do: "start", P: p, Op: "Put", K: k, Inst: inst, Bad: bad}
+	case r < 7:
+		return Step{Do: "start", P: p, Op: "Get", K: k, Inst: inst, Hold: rng.Intn(2) == 0}
+	case r < 9:
+		ks := []string{k}
+		if k2 := keys[rng.Intn(len(keys))]; k2 != k {
+			ks = append(ks, k2)
+		}
+		return Step{Do: "start", P: p, Op: "Fm", Ks: ks, Inst: inst}
+	default:
+		return Step{Do: "start", P: p, Op: "Comp", K: "k0", Inst: inst, Child: rng.Intn(2)}
+	}
+}
+
+// releasable tells whether releasing the gate cannot block on a mutex held by a parked process.
+func releasable(label string, parked []string) bool {
+	if strings.HasSuffix(label, "flat.GetFromComposite.refresh") || strings.HasSuffix(label, "flat.FindMissing.refresh") {
+		for _, q := range parked {
+			if strings.HasPrefix(q, "slice:") {
+				return false // a process parked in the slicer holds refreshLock (flat store)
+			}
+		}
+	}
+	return true
+}
+
+// TestRandom runs (1) a random cooperative scheduler: a seeded sequence of
+// "start an operation" / "release a parked gate" choices, fully reproducible,
+// and (2) free-running goroutines with real parallelism.
+func TestRandom(t *testing.T) {
+	hx.DropRuntimeCollectors()
+	out := os.Getenv("STORE_OUT")
+	seed := int64(hx.EnvInt("VERIF_SEED", 1))
+	access := hx.Env("STORE_ACCESS", "flat")
+	runs := hx.EnvInt("STORE_RUNS", 100)
+	nops := hx.EnvInt("STORE_OPS", 12)
+	wantCorrupt := hx.EnvInt("STORE_CORRUPT", 0) == 1
+	gates := []string{"flat.Get.upgrade", "flat.GetFromComposite.refresh", "flat.FindMissing.refresh", "hier.Get.upgrade", "hier.FindMissing.refresh"}
+	tw := hx.NewWriter(filepath.Join(out, "traces.ndjson"))
+	defer tw.Close()
+	steps, ends := 0, 0
+	only := hx.EnvInt("STORE_ONLY_RUN", -1)
+	for r := 0; r < runs; r++ {
+		if only >= 0 && r != only {
+			continue
+		}
+		rng := rand.New(rand.NewSource(seed*1000003 + int64(r)))
+		cfg, keys, _ := randomConfig(rng, access)
+		names := keyNames(keys)
+		synctest.Test(t, func(t *testing.T) {
+			tw.Emit(map[string]any{"ev": "Reset", "id": fmt.Sprintf("randcoop/%d/%d", seed, r), "cfg": cfgEvent(cfg, true), "keys": names})
+			w := newWorld(cfg, keys, true, 1, gates, tw)
+			installYield(w)
+			started := 0
+			busy := map[string]bool{}
+			procs := []string{"c1", "c2", "c3"}
+			for {
+				parked := w.sc.Parked()
+				var rel []string
+				for _, l := range parked {
+					if releasable(l, parked) {
+						rel = append(rel, l)
+					}
+				}
+				for _, p := range procs { // a process is busy while it has a gate parked
+					busy[p] = false
+				}
+				for _, l := range parked {
+					busy[strings.SplitN(l, ":", 3)[1]] = true
+				}
+				var idle []string
+				for _, p := range procs {
+					if !busy[p] {
+						idle = append(idle, p)
+					}
+				}
+				canStart := started < nops && len(idle) > 0
+				if !canStart && len(rel) == 0 {
+					break
+				}
+				steps++
+				if canStart && (len(rel) == 0 || rng.Intn(2) == 0) {
+					if wantCorrupt && cfg.Alloc == "dev" && cfg.Factory == "cas" && rng.Intn(6) == 0 {
+						w.corrupt(names[rng.Intn(len(names))])
+						continue
+					}
+					p := idle[rng.Intn(len(idle))]
+					w.log.SetCur(p)
+					w.start(randomOp(rng, p, names, access, false))
+					w.sc.Settle()
+					started++
+				} else {
+					l := rel[rng.Intn(len(rel))]
+					w.log.SetCur(strings.SplitN(l, ":", 3)[1])
+					w.sc.Release(l)
+				}
+			}
+			w.finish()
+			installYield(nil)
+			for _, e := range w.log.Mem {
+				if ev := e["ev"].(string); strings.HasSuffix(ev, "End") && ev != "WriterEnd" {
+					ends++
+				}
+			}
+		})
+	}
+	// free-running: real goroutines, gates only perturb the Go scheduler
+	freeRuns := hx.EnvInt("STORE_FREE_RUNS", 10)
+	freeOps := hx.EnvInt("STORE_FREE_OPS", 40)
+	for r := 0; r < freeRuns; r++ {
+		rng := rand.New(rand.NewSource(seed*7000003 + int64(r)))
+		cfg, keys, _ := randomConfig(rng, access)
+		names := keyNames(keys)
+		tw.Emit(map[string]any{"ev": "Reset", "id": fmt.Sprintf("randfree/%d/%d", seed, r), "cfg": cfgEvent(cfg, false), "keys": names})
+		w := newWorld(cfg, keys, false, seed+int64(r), gates, tw)
+		installYield(w)
+		var wg sync.WaitGroup
+		for pi := 0; pi < 4; pi++ {
+			p := fmt.Sprintf("c%d", pi+1)
+			prng := rand.New(rand.NewSource(seed*31 + int64(r)*7 + int64(pi)))
+			wg.Add(1)
+			go func() {
+				defer wg.Done()
+				for i := 0; i < freeOps; i++ {
+					s := randomOp(prng, p, names, access, false)
+					ctx := sched.WithProc(context.Background(), p)
+					func() {
+						defer func() {
+							if rec := recover(); rec != nil {
+								w.log.Emit(map[string]any{"ev": "Panic", "p": p, "msg": fmt.Sprint(rec)})
+							}
+						}()
+						switch s.Op {
+						case "Put":
+							w.doPut(ctx, s)
+						case "Get":
+							w.doGet(ctx, s)
+						case "Fm":
+							w.doFm(ctx, s)
+						case "Comp":
+							w.doComp(ctx, s)
+						}
+					}()
+					steps++
+					ends++
+				}
+			}()
+		}
+		wg.Wait()
+		w.finish()
+		installYield(nil)
+	}
+	b, _ := json.Marshal(map[string]any{"coop_runs": runs, "free_runs": freeRuns, "steps": steps, "completions": ends})
+	os.WriteFile(filepath.Join(out, "summary.json"), b, 0o644)
+}
